@@ -107,7 +107,50 @@ func appendChunk(b *bytes.Buffer, m *Map, typ string, data []byte) {
 }
 
 // ICCPChunk builds an iCCP chunk.  level: flate level (-2 huffman only, 0 store, 1..9), name 1..79 bytes.
+// StoredZlib writes a zlib stream of stored (uncompressed) deflate blocks of at most `block` bytes the way the
+// reference zlib does at level 0: the LAST DATA BLOCK carries the final-block flag (Go's compress/zlib ends with
+// an extra empty final block instead).  cinfo/flevel choose the header's window-size and level fields (any
+// window is legal for stored blocks).  RFC 1950 / RFC 1951 section 3.2.4.
+func StoredZlib(data []byte, block int, cinfo, flevel byte) []byte {
+	if block < 1 || block > 65535 {
+		block = 65535
+	}
+	cmf := cinfo<<4 | 8
+	flg := flevel << 6
+	flg += byte(31 - (uint16(cmf)<<8|uint16(flg))%31)
+	if (uint16(cmf)<<8|uint16(flg))%31 != 0 {
+		flg -= 31
+	}
+	out := []byte{cmf, flg}
+	if len(data) == 0 {
+		out = append(out, 1, 0, 0, 0xFF, 0xFF)
+	}
+	for off := 0; off < len(data); off += block {
+		n := block
+		final := byte(0)
+		if off+n >= len(data) {
+			n, final = len(data)-off, 1
+		}
+		out = append(out, final, byte(n), byte(n>>8), ^byte(n), ^byte(n>>8))
+		out = append(out, data[off:off+n]...)
+	}
+	a, b := uint32(1), uint32(0)
+	for _, c := range data {
+		a = (a + uint32(c)) % 65521
+		b = (b + a) % 65521
+	}
+	ad := b<<16 | a
+	return append(out, byte(ad>>24), byte(ad>>16), byte(ad>>8), byte(ad))
+}
+
+// ICCPChunk compresses with compress/zlib at the given level; levels <= -10 select StoredZlib (reference-zlib
+// style stored streams): -10 one block per 65535 bytes, -11 blocks of 1000 bytes, -12 blocks of 7 bytes with a
+// small-window header.
 func ICCPChunk(name string, profile []byte, level int) Chunk {
+	if level <= -10 {
+		z := StoredZlib(profile, []int{65535, 1000, 7}[(-level-10)%3], []byte{7, 7, 0}[(-level-10)%3], []byte{0, 2, 1}[(-level-10)%3])
+		return RawICCPChunk(name, z)
+	}
 	var z bytes.Buffer
 	w, _ := zlib.NewWriterLevel(&z, level)
 	w.Write(profile)
